@@ -156,12 +156,26 @@ R.update({
     "C18-seed10": ("C18", "not reported as a violation: C18 quick answers exit 2 (the tracer draws with random.expovariate)", "outside the claim", "statistical clause only"),
 })
 
+# round 5 (third session): nine properties, 27 delivered, 17 repeats of earlier changes, 10 kept
+R.update({
+    "C04-seed9": ("C04", "C04 quick (sound_odd_2)", "after strengthening", "TypedDicts with the same keys in another insertion order and swapped value types were matched positionally: pair added to the hand-picked grammar"),
+    "C06-seed7": ("C06", "C06 quick (tdlimit_odd_2); C04 quick (sound_odd_2)", "after strengthening", "isinstance(k, str) on a key whose __class__ claims str: the value was added AND the engine's isinstance (which never reads __class__) was given CPython's rule, otherwise the change is invisible under the engine"),
+    "C07-seed8": ("C07", "C07 quick (stream)", "after strengthening", "a memo keyed by id(union) in a long-lived rewriter: needs a stream of unions through ONE rewriter instance and an id() that reuses a dead object's number (environment model engine/envmodel.py)"),
+    "C08-seed8": ("C08", "C08 quick (rt_trace: two equal traces serialise differently)", "after strengthening", "needed a TypedDict argument with two keys (field order inside the stored JSON)"),
+    "C10-seed9": ("C10", "C10 quick (stale_full3)", "after strengthening", "stale-row kinds added: module two levels below a removed package; class removed inside a generic"),
+    "C10-seed10": ("C10", "C10 quick (stale_full3)", "after strengthening", "kind added: removed module whose name is a textual prefix of a live module"),
+    "C11-seed8": ("C11", "C11 quick (tv_quick: Type[_io.StringIO])", "at once", ""),
+    "C13-seed8": ("C13", "C13 quick (annot_quick: NewType annotation with None default)", "after strengthening", "fixture ann_newtype_none_default added"),
+    "C13-seed9": ("C13", "C13 quick (annot_quick, omit mode on a generator source annotation)", "at once", ""),
+    "C16-seed7": ("C16", "C16 quick (confine_quick through the real apply_stub_using_libcst glue)", "after strengthening", "the harness used to call the libcst codemod itself; it now runs MonkeyType's own apply function (libcst untraced) incl. a stub that adds no import"),
+})
+
 
 def main():
     lines = ["# Seeded changes and which checks catch them", "",
              "Each directory holds patch.diff (applies to /repo's HEAD with `git -C /repo apply`), demo.py (exit 0 / PASS on the unchanged tree, exit 1 / FAIL with the patch) and meta.json.",
              "All were produced by sub-agents that saw only the property text and a scratch worktree; each was confirmed (tests pass with the patch, demo fails with it and passes without) "
-             "by tools/try_seed.sh before the check was run against it. Three rounds: seed1-2 (first session), seed3-5 and seed6-8 (second session). "
+             "by tools/try_seed.sh before the check was run against it. Five rounds over three sessions. "
              "'when' says whether the quick check as it stood when the change was first tried caught it. After the strengthenings every change is caught by the "
              "quick tier of its property, except four that are answered exit 2 (inconclusive) by design (C09-seed5, C09-seed11, C18-seed7, C18-seed10).", "",
              "| seed | property | caught by | when | note |", "|---|---|---|---|---|"]
